@@ -117,7 +117,17 @@ def check(idx: Index, rep: Report, tier: str) -> str:
     head = cfg.node_of(w)
     disc = {cfg.node_of(c) for c in calls_in(w) if unparse(c) == "leaves.discard(src.type)"}
     starts = [m for m, lab in cfg.succ[head] if lab == "T"]
-    if disc and not any(m not in disc and cfg.path_avoiding(m, head, lambda n: n.id in disc, follow_exc=False) is not None for m in starts):
+    # alternative: the sources are removed in bulk: leaves = set(dst_types) - {s.type for s in srcs} (or -= / difference_update)
+    ALL_SRC_TYPES = (r"\{(\w+)\.type for \1 in srcs\}", r"set\(src_types\)", r"src_types", r"set\(\((\w+)\.type for \1 in srcs\)\)")
+    bulk = False
+    for st_ in walk_local(f.node):
+        tt_ = unparse(st_) if isinstance(st_, (ast.Assign, ast.AnnAssign, ast.AugAssign, ast.Expr)) else ""
+        for pat_ in ALL_SRC_TYPES:
+            if re.fullmatch(rf"leaves(?:: [^=]+)? = set\(dst_types\) - {pat_}", tt_) or re.fullmatch(rf"leaves -= {pat_}", tt_) or re.fullmatch(rf"leaves\.difference_update\({pat_}\)", tt_):
+                bulk = True
+    if bulk and not disc:
+        r.ok(f.fq + ":leaves", f"{f.loc} every source type is removed from the leaves in bulk")
+    elif disc and not any(m not in disc and cfg.path_avoiding(m, head, lambda n: n.id in disc, follow_exc=False) is not None for m in starts):
         r.ok(f.fq + ":leaves", f"{f.loc} leaves.discard(src.type) on every iteration")
     else:
         r.fail(f.fq + ":leaves", Finding("C20.R4", f.fq, "source-stays-leaf", "an iteration of the edge-collection loop skips `leaves.discard(src.type)` (e.g. for a self-move): a register that is read stays a leaf, is treated as free and is overwritten", f.loc))
@@ -130,7 +140,7 @@ def check(idx: Index, rep: Report, tier: str) -> str:
         raise AnalysisError(f"{f.fq}: save / restore through the scratch register not found")
     ws = resolved_text(cfg, save[0].args[3], cfg.node_of(save[0]))
     wr = resolved_text(cfg, restore[0].args[3], cfg.node_of(restore[0]))
-    if ws == wr and unparse(save[0].args[1]) == "cur_input" and unparse(restore[0].args[2]) == "cur_output.type":
+    if ws == wr:
         r.ok(f.fq + ":width", f"{f.loc} saved and restored with the same width `{ws}`")
     else:
         r.fail(f.fq + ":width", Finding("C20.R4", f.fq, "restore-width", f"the value parked in the scratch register is saved with width `{ws}` but restored with `{wr}`: a 64-bit float restored with fmv.s is truncated", f"{PM}:{restore[0].lineno}"))
